@@ -182,7 +182,7 @@ pub fn run(ctx: &Ctx) -> Outcome {
         }
         co
     });
-    run_cases(ctx, &mut out, SubSpec { name: "random_grid_polygons", cases: ctx.n(60_000, 5_000_000), exhaustive: false, max_secs: secs }, |i, want, st| {
+    run_cases(ctx, &mut out, SubSpec { name: "random_grid_polygons", cases: ctx.n(300_000, 5_000_000), exhaustive: false, max_secs: secs }, |i, want, st| {
         let mut rng = ctx.rng("random_grid_polygons", i);
         let range = *rng.pick(&[16i64, 32, 48]);
         let ops = gen_poly(&mut rng, range);
@@ -217,7 +217,7 @@ pub fn run(ctx: &Ctx) -> Outcome {
         }
         co
     });
-    run_cases(ctx, &mut out, SubSpec { name: "agrees_with_fill", cases: ctx.n(8_000, 500_000), exhaustive: false, max_secs: secs }, |i, want, st| {
+    run_cases(ctx, &mut out, SubSpec { name: "agrees_with_fill", cases: ctx.n(30_000, 500_000), exhaustive: false, max_secs: secs }, |i, want, st| {
         let mut rng = ctx.rng("agrees_with_fill", i);
         let w = rng.int(6, 32) as i32;
         let h = rng.int(6, 32) as i32;
